@@ -109,9 +109,9 @@ Proof.
   apply IH. lia.
 Qed.
 
-Theorem read_parts_terminates cfg fr s : read_parts cfg fr s <> ROutOfFuel.
+Theorem read_parts_terminates cfg cl te s : read_parts cfg cl te s <> ROutOfFuel.
 Proof.
-  unfold read_parts. destruct (fr_chunked fr).
+  unfold read_parts. destruct (Chunked.te_chunked te).
   - apply ch_parts_terminates. lia.
   - apply cl_parts_terminates. lia.
 Qed.
